@@ -24,9 +24,10 @@ Qed.
 
 Definition InvE (s : st) : Prop :=
   (forall t th, threads s t = Some th -> prereport (t_pc th) = true -> t_ok th = false /\ t_todo th = []) /\
-  (forall t th, threads s t = Some th ->
+  (forall t th, threads s t = Some th -> is_entries (t_kind th) = false ->
      rev (ads_by t (hooks s)) ++ t_todo th = (if t_ok th then walk (t_stop th) (t_msg th) else [])) /\
-  (forall t th, threads s t = Some th -> t_ok th = true -> t_msg th <> 0 /\ t_stop th <> t_msg th) /\
+  (forall t th, threads s t = Some th -> is_entries (t_kind th) = false -> t_ok th = true ->
+     t_msg th <> 0 /\ t_stop th <> t_msg th) /\
   (forall x, In x (hooks s) -> exists th, threads s (fst (fst x)) = Some th /\ t_pub th = snd (fst x)).
 
 Lemma ads_by_cons_same t p a l : ads_by t ((t, p, a) :: l) = a :: ads_by t l.
@@ -64,20 +65,22 @@ Proof.
       try (rewrite Hpc in Hp); cbn in Hp; try discriminate Hp; use_impl; try (split; done); done
     | (* E1 *)
       try exact E1;
-      intros t0 th0 H0; thread_cases; cbn_st;
-      try (pose proof (E1 _ _ Hth) as Is);
+      intros t0 th0 H0 Hk0; thread_cases; cbn_st;
+      try (pose proof (E1 _ _ Hth) as Is; rewrite ?Hkind in Is; cbn in Is; try specialize (Is eq_refl));
       try (pose proof (E0 _ _ Hth) as Zs; rewrite Hpc in Zs; cbn in Zs);
-      try (pose proof (E1 _ _ H0) as I0);
+      try (pose proof (E1 _ _ H0 Hk0) as I0);
       try (pose proof (A1 _ _ H0) as L0);
+      rewrite ?Hkind in Hk0; cbn in Hk0; try discriminate Hk0;
       use_impl; rewrite ?Hok, ?Htodo in *;
       try (rewrite ads_by_cons_same); try (rewrite ads_by_cons_other by congruence);
       try exact I0; try exact Is; done
     | (* E2 *)
       try exact E2;
-      intros t0 th0 H0 Hk; thread_cases; cbn_st;
-      try (pose proof (E2 _ _ Hth) as Is);
-      try (pose proof (E2 _ _ H0 Hk) as I0);
+      intros t0 th0 H0 Hk0 Hk; thread_cases; cbn_st;
+      try (pose proof (E2 _ _ Hth) as Is; rewrite ?Hkind in Is; cbn in Is; try specialize (Is eq_refl));
+      try (pose proof (E2 _ _ H0 Hk0 Hk) as I0);
       try (pose proof (E0 _ _ Hth) as Zs; rewrite Hpc in Zs; cbn in Zs);
+      rewrite ?Hkind in Hk0; cbn in Hk0; try discriminate Hk0;
       cbn in Hk; use_impl; try exact I0; try (apply Is; assumption); done
     | (* E3 *)
       try (intros x Hx; cbn [In] in Hx;
@@ -93,7 +96,7 @@ Proof.
   all: try (exfalso; destruct Hx as [thx [X1 X2]]; fail).
   all: try (cbn [rev]; rewrite <- app_assoc; cbn [app]; rewrite <- Htodo; exact Is).
   all: try (pose proof (Cghost _ _ Hth) as Gs; rewrite Hpc in Gs; specialize (Gs eq_refl);
-            unfold ghost_ok in Gs; rewrite Hpc in Gs; destruct Gs as (_ & _ & G3 & G4 & _); split; assumption).
+            unfold ghost_ok in Gs; rewrite Hpc, ?Hkind in Gs; cbn [is_entries] in Gs; destruct Gs as (_ & _ & G3 & G4 & _); split; assumption).
   all: try (rewrite (ads_by_not_in t (hooks s)); [reflexivity|]; eapply D2; [exact Hth|rewrite Hpc; reflexivity]).
   all: try (cbn [rev]; rewrite <- app_assoc; cbn [app]; exact Is).
   exfalso. apply (D2 _ _ Hth); [rewrite Hpc; reflexivity|].
@@ -120,19 +123,20 @@ Proof. destruct e, stop; split; reflexivity. Qed.
 
 (* while the session runs: reported ++ still owed = the positions of C01's segment *)
 Theorem session_progress_c01_l cap s t th extra ch :
-  reach fixed cap s -> threads s t = Some th -> t_ok th = true ->
+  reach fixed cap s -> threads s t = Some th -> is_entries (t_kind th) = false -> t_ok th = true ->
   C1.chain_wf C1.EPrev extra ch = true -> in_range ch (t_msg th) -> t_stop th <= List.length ch ->
   cids ch (session_log s t ++ t_todo th) =
   C1.segment ch (cid_of ch (t_msg th)) (stop_of ch (t_stop th)) None.
 Proof.
-  intros R H Hk Hwf Hh Hs. destruct (invE_reach _ _ R) as (_ & E1 & E2 & _).
-  pose proof (E1 _ _ H) as P. rewrite Hk in P. destruct (E2 _ _ H Hk) as [_ Hne].
+  intros R H Hen Hk Hwf Hh Hs. destruct (invE_reach _ _ R) as (_ & E1 & E2 & _).
+  pose proof (E1 _ _ H Hen) as P. rewrite Hk in P. destruct (E2 _ _ H Hen Hk) as [_ Hne].
   unfold session_log. rewrite P, walk_is_todo.
   apply B4.bridge_todo; auto. apply (B4.chain_nodup extra). exact Hwf.
 Qed.
 
 Theorem session_reports_c01_segment_l cap s t th extra ch pub store segdl explicit :
-  reach fixed cap s -> threads s t = Some th -> t_ok th = true -> t_todo th = [] ->
+  reach fixed cap s -> threads s t = Some th -> is_entries (t_kind th) = false ->
+  t_ok th = true -> t_todo th = [] ->
   C1.chain_wf C1.EPrev extra ch = true -> in_range ch (t_msg th) -> t_stop th <= List.length ch ->
   let head := cid_of ch (t_msg th) in
   let stop := stop_of ch (t_stop th) in
@@ -148,10 +152,10 @@ Theorem session_reports_c01_segment_l cap s t th extra ch pub store segdl explic
   C1.r_hooks (C1.sync_ad_chain (C1.chain_world C1.EPrev extra ch pub) (c08_cfg segdl)
                 (c08_call explicit head) (C1.ST stop (cids ch store))) = cids ch (session_log s t).
 Proof.
-  intros R H Hk Ht Hwf Hh Hs head stop sg Hav.
-  pose proof (session_progress_c01_l cap s t th extra ch R H Hk Hwf Hh Hs) as P.
+  intros R H Hen Hk Ht Hwf Hh Hs head stop sg Hav.
+  pose proof (session_progress_c01_l cap s t th extra ch R H Hen Hk Hwf Hh Hs) as P.
   rewrite Ht, app_nil_r in P. fold head stop sg in P.
-  destruct (invE_reach _ _ R) as (_ & _ & E2 & _). destruct (E2 _ _ H Hk) as [_ Hne].
+  destruct (invE_reach _ _ R) as (_ & _ & E2 & _). destruct (E2 _ _ H Hen Hk) as [_ Hne].
   split; [exact P|]. split.
   - apply B4.c01_handle_closed; auto.
   - rewrite P.
@@ -173,14 +177,14 @@ Qed.
 (* (3) the stop a session uses is C01's stop for the latest sync at that moment         *)
 
 Theorem session_stop_is_c01_stop_l cap s t th ch segdl explicit head store :
-  reach fixed cap s -> threads s t = Some th -> stop_ok (t_pc th) = true ->
+  reach fixed cap s -> threads s t = Some th -> is_entries (t_kind th) = false -> stop_ok (t_pc th) = true ->
   let st := C1.ST (stop_of ch (latest s (t_pub th))) store in
   stop_of ch (t_stop th) = C1.go_stop (c08_cfg segdl) st (c08_call explicit head) /\
   stop_of ch (t_stop th) =
     C1.stop_table (C1.eff_latest (c08_cfg segdl) st) (C1.a_stop (c08_call explicit head))
                   (C1.a_resync (c08_call explicit head)).
 Proof.
-  intros R H Hp st. rewrite (stop_is_current cap s t th R H Hp).
+  intros R H Hen Hp st. rewrite (stop_is_current cap s t th R H Hen Hp).
   unfold st. destruct explicit, (stop_of ch (latest s (t_pub th))); split; reflexivity.
 Qed.
 
